@@ -539,6 +539,152 @@ def gen_collapse_triangle(rng):
     return canon_triangle(mk_triangle(cells))
 
 
+# ---------------------------------------------------------------------- write sequences
+def gen_write_sequence(rng):
+    """2-3 wire triangles to be written back to back in ONE process: they share a metadata with
+    non-empty details / loss_details, but their field-name sets differ so that the detail keys sit
+    at different string-pool indices in each file (hidden writer state keyed by Metadata would leak
+    pool indices from one file into the next)."""
+    for _ in range(50):
+        kind = rng.choice(KINDS)
+        n_meta = rng.choice([1, 1, 2])
+        dkeys = [rng.choice(["coverage", "peril", "line", "m_state", "k"]) + rng.choice(["", "_é", "2"]) for _ in range(3)]
+        dkeys = list(dict.fromkeys(dkeys))
+        metas = []
+        for si in range(n_meta):
+            m = {a: (gen_string(rng, allow_empty=False) if rng.random() < 0.5 else None) for a in META_STR_ATTRS}
+            m["country"] = f"{si}C"
+            m["limit"] = gen_float_hex(rng, allow_nan=False) if rng.random() < 0.3 else None
+            split = rng.randrange(len(dkeys) + 1)
+            m["details"] = [[k, gen_detail_value(rng)] for k in dkeys[:split]]
+            m["loss_details"] = [[k, gen_detail_value(rng)] for k in dkeys[split:]]
+            metas.append(m)
+        late = [f"z_{w}" for w in rng.sample(_WORDS, 3)]          # sort after the detail keys
+        early = [f"{p}_{w}" for p, w in zip(["A", "0", "b", "a"], rng.sample(_WORDS, 4))]  # sort before
+        n_tri = rng.choice([2, 2, 3])
+        field_sets = [late[: rng.randint(1, 3)]]
+        for j in range(1, n_tri):
+            field_sets.append(field_sets[0] + early[: rng.randint(1, 4)] if j % 2 else early[-1:] + late[:1])
+        seq = []
+        for fields in field_sets:
+            cells = []
+            for m in metas:
+                for k in range(rng.choice([1, 2, 3])):
+                    y = 2015 + k
+                    c = {"kind": kind, "ps": [2015, 1, 1], "pe": [2015, 12, 31], "ev": [y, 12, 31], "prev": None,
+                         "values": [[f, gen_cell_value(rng)] for f in fields], "meta": m}
+                    if kind == "IncrementalCell":
+                        c["prev"] = [y, 6, 30] if k == 0 else [y - 1, 12, 31]
+                    cells.append(c)
+            seq.append(canon_triangle(mk_triangle(cells)))
+        pools = [all_keys_sorted(wt) for wt in seq]
+        if any(pools[0].index(k) != pools[j].index(k) for j in range(1, len(seq)) for k in dkeys):
+            return seq
+    return seq
+
+
+def build_sequence(seq, share=True):
+    """Triangle objects for a sequence; share=True: equal metadata are ONE Metadata object across
+    all triangles, share=False: equal but distinct objects per triangle."""
+    from bermuda import Cell, CumulativeCell, IncrementalCell, Triangle
+
+    cls = {"Cell": Cell, "CumulativeCell": CumulativeCell, "IncrementalCell": IncrementalCell}
+    cache = {}
+    out = []
+    for wt in seq:
+        if not share:
+            cache = {}
+        cells = []
+        for c in wt:
+            key = repr(c["meta"])
+            if key not in cache:
+                cache[key] = mk_meta(c["meta"])
+            kw = dict(period_start=datetime.date(*c["ps"]), period_end=datetime.date(*c["pe"]),
+                      evaluation_date=datetime.date(*c["ev"]),
+                      values={k: mk_val(v) for k, v in c["values"]}, metadata=cache[key])
+            if c["kind"] == "IncrementalCell":
+                kw["prev_evaluation_date"] = datetime.date(*c["prev"])
+            cells.append(cls[c["kind"]](**kw))
+        with warnings.catch_warnings():
+            warnings.simplefilter("ignore")
+            out.append(Triangle(cells))
+    return out
+
+
+_FRESH_SCRIPT = r"""
+import json, sys, os, tempfile, warnings
+warnings.simplefilter("ignore")
+from harness import bin_common as B
+wt = json.load(sys.stdin)
+d = tempfile.mkdtemp()
+p = os.path.join(d, "fresh.trib")
+B.mk_triangle(wt).to_binary(p)          # the very first write of this interpreter
+sys.stdout.write(open(p, "rb").read().hex())
+os.unlink(p); os.rmdir(d)
+"""
+
+
+def fresh_bytes(wts):
+    """Bytes of each triangle when it is the FIRST thing written by a fresh interpreter."""
+    import json
+    import subprocess
+    from concurrent.futures import ThreadPoolExecutor
+
+    from harness.common import PY
+
+    def one(wt):
+        pr = subprocess.run([PY, "-c", _FRESH_SCRIPT], input=json.dumps(wt), capture_output=True, text=True,
+                            timeout=300)
+        if pr.returncode != 0:
+            return ("err", pr.stderr[-400:])
+        return ("ok", bytes.fromhex(pr.stdout.strip()))
+
+    with ThreadPoolExecutor(max_workers=8) as ex:
+        return list(ex.map(one, wts))
+
+
+def sequence_oracle(seq, scratch, fresh=None, orders=None):
+    """Write the sequence back to back in this process (shared and equal-but-distinct Metadata objects,
+    both orders, plain and compressed).  Every file must round-trip strictly, be the documented layout
+    of ITS triangle (independent encoder) and equal the bytes a fresh interpreter writes for it.
+    Returns None or (what, detail) with the failing order/flavour."""
+    import gzip as _gzip
+
+    n = len(seq)
+    fresh = fresh or fresh_bytes(seq)
+    for i, fr in enumerate(fresh):
+        if fr[0] != "ok":
+            return (f"a fresh interpreter could not write triangle {i} of the sequence: {fr[1]}", {"index": i})
+    for order in (orders or [list(range(n)), list(range(n - 1, -1, -1))]):
+        for share in (True, False):
+            for compress in (False, True):
+                tris = build_sequence([seq[i] for i in order], share=share)
+                det = {"order": order, "share": share, "compress": compress}
+                for pos, (i, tri) in enumerate(zip(order, tris)):
+                    b = impl_write(tri, scratch, compress=compress)
+                    d = dict(det, index=i, position=pos)
+                    if compress:
+                        try:
+                            plain = _gzip.decompress(b)
+                        except Exception as ex:  # noqa: BLE001
+                            return (f"file {pos} of the sequence is not a gzip stream: {type(ex).__name__}", d)
+                    else:
+                        plain = b
+                    r = impl_read(b, scratch, compress=compress)
+                    if r[0] != "ok":
+                        return (f"file {pos} of a write sequence cannot be read back: {r[1]}", d)
+                    if not wt_equal(r[1], seq[i]):
+                        return (f"file {pos} of a write sequence (triangle {i}) reads back differently: "
+                                + first_diff(r[1], seq[i]), d)
+                    if plain != fresh[i][1]:
+                        return (f"file {pos} of a write sequence (triangle {i}) differs from the bytes written for the "
+                                "same triangle by a fresh interpreter: the writer keeps state between files", d)
+                    if plain != ref_encode(seq[i]):
+                        return (f"file {pos} of a write sequence (triangle {i}) is not the documented layout of its "
+                                "triangle (independent encoder)", d)
+    return None
+
+
 def all_keys_sorted(wt):
     ks = set()
     for c in wt:
